@@ -989,6 +989,59 @@ func jsonOneOfs(p *Program) map[string]*JSONOneOf {
 					}
 				}
 			}
+			// table-driven probing: variants := []func([]byte) error{c.unmarshalJSON_A, …};
+			// for _, f := range variants { err = f(bs); if err == nil { return nil } }
+			if len(oo.ProbeOrder) == 0 {
+				var table types.Object
+				var order []string
+				for _, st := range fd.Body.List {
+					switch x := st.(type) {
+					case *ast.AssignStmt:
+						if x.Tok != token.DEFINE || len(x.Lhs) != 1 || len(x.Rhs) != 1 {
+							continue
+						}
+						cl, ok := x.Rhs[0].(*ast.CompositeLit)
+						if !ok {
+							continue
+						}
+						var names []string
+						for _, el := range cl.Elts {
+							sel, ok := el.(*ast.SelectorExpr)
+							if !ok || !c.isObj(sel.X, c.recv) || !strings.HasPrefix(sel.Sel.Name, "unmarshalJSON_") {
+								names = nil
+								break
+							}
+							names = append(names, strings.TrimPrefix(sel.Sel.Name, "unmarshalJSON_"))
+						}
+						if len(names) > 0 {
+							table, order = identObj(info, x.Lhs[0]), names
+						}
+					case *ast.RangeStmt:
+						if table == nil || !c.isObj(x.X, table) || x.Value == nil || len(x.Body.List) != 2 {
+							continue
+						}
+						f := identObj(info, x.Value)
+						as, ok1 := x.Body.List[0].(*ast.AssignStmt)
+						ifs, ok2 := x.Body.List[1].(*ast.IfStmt)
+						if !ok1 || !ok2 || len(as.Rhs) != 1 || len(as.Lhs) != 1 {
+							continue
+						}
+						call, ok := as.Rhs[0].(*ast.CallExpr)
+						if !ok || identObj(info, call.Fun) != f || len(call.Args) != 1 {
+							continue
+						}
+						okRet := false
+						if types.ExprString(ifs.Cond) == types.ExprString(as.Lhs[0])+" == nil" && ifs.Else == nil && len(ifs.Body.List) == 1 {
+							if ret, ok := ifs.Body.List[0].(*ast.ReturnStmt); ok && len(ret.Results) == 1 && isNilIdent(ret.Results[0]) {
+								okRet = true
+							}
+						}
+						if okRet {
+							oo.ProbeOrder = order
+						}
+					}
+				}
+			}
 			if last, ok := fd.Body.List[len(fd.Body.List)-1].(*ast.ReturnStmt); ok {
 				oo.DefaultErr = len(last.Results) == 1 && !isNilIdent(last.Results[0])
 			}
@@ -1192,15 +1245,29 @@ func arrayComponentProblem(p *Program, n *types.Named) string {
 					walk(b.List, false)
 				}
 			case *ast.ExprStmt:
-				if call, ok := s.X.(*ast.CallExpr); ok && len(call.Args) == 1 {
-					if conv, ok := call.Args[0].(*ast.CallExpr); ok && len(conv.Args) == 1 {
-						if tv := info.Types[conv.Args[0]]; tv.Value != nil && top {
-							switch constant.StringVal(tv.Value) {
-							case "[":
-								opens++
-							case "]":
-								closes++
+				// write([]byte("[")), out.WriteString("["), out.WriteByte('[') …: a constant bracket
+				if call, ok := s.X.(*ast.CallExpr); ok && len(call.Args) == 1 && top {
+					arg := ast.Unparen(call.Args[0])
+					if conv, ok := arg.(*ast.CallExpr); ok && len(conv.Args) == 1 {
+						if ctv, isT := info.Types[conv.Fun]; isT && ctv.IsType() {
+							arg = conv.Args[0]
+						}
+					}
+					if tv := info.Types[arg]; tv.Value != nil {
+						lit := ""
+						switch tv.Value.Kind() {
+						case constant.String:
+							lit = constant.StringVal(tv.Value)
+						case constant.Int:
+							if v, ok := constant.Int64Val(tv.Value); ok && v > 0 && v < 128 {
+								lit = string(rune(v))
 							}
+						}
+						switch lit {
+						case "[":
+							opens++
+						case "]":
+							closes++
 						}
 					}
 				}
